@@ -44,12 +44,12 @@ Definition rd {A} (m : mode) (x : option A) (d : A) : outcome A :=
 Definition ob (x : obytes) : bytes := match x with Some b => b | None => [] end.   (* string(b), len/range of b *)
 
 (* ---------- common.BytesToHash ---------- *)
-Definition lastn {A} (n : nat) (l : list A) : list A := skipn (length l - n) l.
+Definition lastn {A} (n : nat) (l : list A) : list A := skipn (List.length l - n) l.
 Definition to_hash (b : bytes) : bytes :=
-  if Nat.ltb 32 (length b) then lastn 32 b else repeat 0%N (32 - length b) ++ b.
+  if Nat.ltb 32 (List.length b) then lastn 32 b else repeat 0%N (32 - List.length b) ++ b.
 
 (* ---------- common.BytesToSign ---------- *)
-Definition to_sign (b : bytes) : option bytes := if Nat.eqb (length b) 65 then Some b else None.
+Definition to_sign (b : bytes) : option bytes := if Nat.eqb (List.length b) 65 then Some b else None.
 
 (* ---------- time.Time MarshalBinary / UnmarshalBinary (Go 1.23) ---------- *)
 Record gtime := mk_time { t_sec : Z; t_nsec : Z; t_off : option Z }.
@@ -83,7 +83,7 @@ Definition time_unmarshal (b : bytes) : option gtime :=
   | v :: r =>
       if (v =? 1)%N || (v =? 2)%N then
         let want := if (v =? 1)%N then 14%nat else 15%nat in
-        if Nat.eqb (length r) want then
+        if Nat.eqb (List.length r) want then
           let sec := u_to_s 64 (bev (firstn 8 r)) in
           let ns := u_to_s 32 (bev (firstn 4 (skipn 8 r))) in
           let om := u_to_s 16 (bev (firstn 2 (skipn 12 r))) in
@@ -145,7 +145,7 @@ Definition tx_of_pb_body (p : pb_tx) : outcome tx :=
   do sock <- rd (mT "SocketRequestId") p.(p_SocketRequestId) [];
   let sub := match p.(p_SubTransactions) with Some b => sub_dec b | None => sub_nil end in
   let sign := match p.(p_Sign) with
-              | Some b => if Nat.eqb (length b) 0 then None else to_sign b
+              | Some b => if Nat.eqb (List.length b) 0 then None else to_sign b
               | None => None end in
   do nonce <- rd (mT "Nonce") p.(p_Nonce) 0%N;
   do rid <- rd (mT "RequestId") p.(p_RequestId) 0%N;
